@@ -10,5 +10,6 @@ import Verif.Model.Chain
 import Verif.Lemmas.Chain
 import Verif.Props.C01
 import Verif.Lemmas.Updates
+import Verif.Lemmas.Prune
 import Verif.Props.C19
 import Verif.Props.C04
